@@ -142,6 +142,9 @@ func init() {
 				case 1:
 					lb = []string{}
 				}
+				if rng.Intn(2) == 0 && len(lb) > 1 { // the overlapping pair not in the first column: list 1 is still validated to its end
+					lb[0], lb[len(lb)-1] = lb[len(lb)-1], lb[0]
+				}
 				do("ovEA", join(la), join(lb))
 			case 7:
 				a := corrupt(spids(spl[:1]))
@@ -154,6 +157,9 @@ func init() {
 					la = []string{}
 				case 1:
 					lb = []string{}
+				}
+				if rng.Intn(2) == 0 && len(lb) > 1 {
+					lb[0], lb[len(lb)-1] = lb[len(lb)-1], lb[0]
 				}
 				do("ovSA", join(la), join(lb))
 			case 9:
